@@ -59,6 +59,8 @@ fn classify_asm(e: &AsmError) -> String {
         AsmError::UndeclaredVariableMacro { var, .. } => {
             format!("UndeclaredVariableMacro {}", var)
         }
+        AsmError::MacroArgumentCount { name, .. } => format!("Asm.MacroArgumentCount {}", name),
+        AsmError::MacroRecursionLimit { name, .. } => format!("Asm.MacroRecursionLimit {}", name),
         #[allow(unreachable_patterns)]
         other => {
             // Variants added by later repairs are reported by their Debug head.
